@@ -443,6 +443,89 @@ impl CrashSpec for MmapVecHist2 {
     }
 }
 
+// ---- MmapVec<u16>: shrink_to_fit / reserve / resize, and a sync_on_write configuration ----------------
+
+struct MmapVecHist3 {
+    sync_on_write: bool,
+}
+fn mv16_state(v: &MmapVec<u16>) -> Vec<u8> {
+    let mut s = (v.len() as u64).to_le_bytes().to_vec();
+    for x in v.as_slice() {
+        s.extend_from_slice(&x.to_le_bytes());
+    }
+    s
+}
+impl CrashSpec for MmapVecHist3 {
+    fn name(&self) -> String {
+        format!("MmapVec<u16>[sync_on_write={}]: create(cap 8), push x6, sync, truncate(3), shrink_to_fit, sync, reserve(20), push, sync, resize(12), sync", self.sync_on_write)
+    }
+    fn describe(&self) -> String {
+        "third MmapVec history: the file SHRINKS (shrink_to_fit: set_len below the old capacity, then header update), grows again by reserve and by resize; u16 elements".into()
+    }
+    fn sector_sizes(&self, _tier: zverif::Tier) -> Vec<usize> {
+        vec![512, 64]
+    }
+    fn run_history(&self, dir: &Path, rec: &mut Recorder) -> Result<(), String> {
+        let p = dir.join("s.mmapvec");
+        let cfg = MmapVecConfig::builder().with_initial_capacity(8).with_sync_on_write(self.sync_on_write).build();
+        let mut v: MmapVec<u16> = MmapVec::create(&p, cfg).map_err(es)?;
+        v.sync().map_err(es)?;
+        rec.sync_point(mv16_state(&v));
+        // one push per step: with sync_on_write every push persists its own state (extend is covered by the u32 history)
+        for x in [0xA1A1u16, 0xB2B2, 0xC3C3, 0xD4D4, 0xE5E5, 0xF6F6] {
+            v.push(x).map_err(es)?;
+            rec.op_boundary(mv16_state(&v));
+        }
+        v.sync().map_err(es)?;
+        rec.sync_point(mv16_state(&v));
+        v.truncate(3).map_err(es)?;
+        rec.op_boundary(mv16_state(&v));
+        v.shrink_to_fit().map_err(es)?;
+        rec.op_boundary(mv16_state(&v));
+        v.sync().map_err(es)?;
+        rec.sync_point(mv16_state(&v));
+        v.reserve(20).map_err(es)?;
+        rec.op_boundary(mv16_state(&v));
+        v.push(0x0707).map_err(es)?;
+        rec.op_boundary(mv16_state(&v));
+        v.sync().map_err(es)?;
+        rec.sync_point(mv16_state(&v));
+        v.resize(12, 0x5A5A).map_err(es)?;
+        rec.op_boundary(mv16_state(&v));
+        v.sync().map_err(es)?;
+        rec.sync_point(mv16_state(&v));
+        Ok(())
+    }
+    fn reopen(&self, dir: &Path) -> Result<Vec<u8>, String> {
+        let v: MmapVec<u16> = MmapVec::open(dir.join("s.mmapvec"), MmapVecConfig::default()).map_err(es)?;
+        let mut s = mv16_state(&v);
+        for i in 0..v.len() {
+            if v.get(i).is_none() {
+                s.push(0xEE);
+            }
+        }
+        Ok(s)
+    }
+    fn after_reopen(&self, dir: &Path) -> Result<(), String> {
+        // keep using the recovered vector: shrink, grow, sync, reopen
+        let p = dir.join("s.mmapvec");
+        let mut v: MmapVec<u16> = MmapVec::open(&p, MmapVecConfig::default()).map_err(es)?;
+        let mut want: Vec<u16> = v.as_slice().to_vec();
+        v.shrink_to_fit().map_err(es)?;
+        for i in 0..5u16 {
+            v.push(0x7700 + i).map_err(es)?;
+            want.push(0x7700 + i);
+        }
+        v.sync().map_err(es)?;
+        drop(v);
+        let v: MmapVec<u16> = MmapVec::open(&p, MmapVecConfig::default()).map_err(es)?;
+        if v.as_slice() != &want[..] {
+            return Err(format!("after recovery + shrink_to_fit + 5 pushes + sync + reopen the vector holds {:x?}, expected {:x?}", v.as_slice(), want));
+        }
+        Ok(())
+    }
+}
+
 fn main() {
     zverif::main_with("C19", |reg, _tier| {
         reg.add(Crash { spec: MmapVecHist, shim: &SHIM });
@@ -453,5 +536,7 @@ fn main() {
         reg.add(Crash { spec: ReorderHist { sign: -1 }, shim: &SHIM });
         reg.add(Crash { spec: DictHist, shim: &SHIM });
         reg.add(Crash { spec: MmapVecHist2, shim: &SHIM });
+        reg.add(Crash { spec: MmapVecHist3 { sync_on_write: false }, shim: &SHIM });
+        reg.add(Crash { spec: MmapVecHist3 { sync_on_write: true }, shim: &SHIM });
     });
 }
